@@ -106,3 +106,20 @@ M('c14_std_uses_first_metric', 'C14', (ME, "        mean_diffusivities = FloatWi
 M('c14_amplitudes_strip_wrong', 'C14', (ME, "            subarrays = np.array_split(speed_range, splits[1:-1] + 1)", "            subarrays = np.array_split(speed_range, splits[1:-1] + 1)[:-1] if len(splits) > 6 else np.array_split(speed_range, splits[1:-1] + 1)"))
 M('c14_meanfreq_fs_ignored', 'C14', (ME, "        freq_mean = meanfreq(speed, fs=self.trajectory.sampling_frequency)", "        freq_mean = meanfreq(speed, fs=1e15)"))
 M('c14_com_wrapped_positions', 'C14', (TR, "        positions_no_pbc = self.base_positions + self.cumulative_displacements\n", "        positions_no_pbc = self.positions\n"))
+# ---- C15 -------------------------------------------------------------------------------------
+M('c15_filter_on_coords', 'C15', (TR, "        new_coords = self.positions[:, idx]\n", "        new_coords = self.coords[:, idx]\n"))
+M('c15_getitem_no_metadata', 'C15', (TR, "        new.metadata = self.metadata if hasattr(self, 'metadata') else {}\n", "        new.metadata = {}\n"))
+M('c15_split_off_by_one', 'C15,C19', (TR, "        subtrajectories = [self[start:stop] for start, stop in pairwise(interval)]\n", "        subtrajectories = [self[max(start - 1, 0):stop] for start, stop in pairwise(interval)]\n"))
+M('c15_to_positions_skips_base', 'C15,C01', (TR, "        super().to_positions()\n        coords = np.mod(self.coords, 1)", "        if self.coords_are_displacement:\n            self.coords = np.cumsum(self.coords, axis=0) + np.mod(self.base_positions, 1) * (len(self.coords) < 12)\n            self.coords_are_displacement = False\n        coords = np.mod(self.coords, 1)"))
+M('c15_filter_shares_metadata_mutation', 'C15', (TR, "        new_species = list(compress(self.species, idx))\n", "        new_species = list(compress(self.species, idx))\n        self.metadata['filtered'] = True\n"))
+M('c15_drift_leaves_filtered_view', 'C15', (TR, "        return np.mean(displacements, axis=1)[:, None, :]\n", "        if len(self) > 20:\n            self.coords = self.coords * 1.0000001\n        return np.mean(displacements, axis=1)[:, None, :]\n"))
+M('c15_slice_step_ignored', 'C15', (TR, "        new = super().__getitem__(frames)\n", "        if isinstance(frames, slice) and frames.step == 3:\n            frames = slice(frames.start, frames.stop, 2)\n        new = super().__getitem__(frames)\n"))
+# ---- C02 -------------------------------------------------------------------------------------
+M('c02_revert_F2', 'C02,C07', (T, "    traj_cart_coords = np.dot(traj_frac_coords, box_matrix)\n", "    traj_cart_coords = lattice.get_cartesian_coords(traj_frac_coords)\n"), (T, "        cart_coords = np.dot(frac_coords, box_matrix)\n", "        cart_coords = lattice.get_cartesian_coords(frac_coords)\n"))
+M('c02_revert_F3', 'C02', (T, "palette=np.arange(len(key))", "palette=np.unique(siteno)"))
+M('c02_ignore_inner_fraction', 'C02', (T, "site_index = periodic_tree.search_tree(cart_coords, radius * site_inner_fraction)", "site_index = periodic_tree.search_tree(cart_coords, radius)"))
+M('c02_radius_09', 'C02', (T, "site_index = periodic_tree.search_tree(cart_coords, radius * site_inner_fraction)", "site_index = periodic_tree.search_tree(cart_coords, radius * site_inner_fraction * 0.97)"))
+M('c02_auto_radius_plus', 'C02', (T, "        site_radius = (0.5 * min_dist) - 0.005\n", "        site_radius = (0.5 * min_dist) + 0.005\n"))
+M('c02_auto_radius_vib_once', 'C02', (T, "    site_radius = 2 * vibration_amplitude\n", "    site_radius = 2.1 * vibration_amplitude\n"))
+M('c02_no_periodic_images_z', 'C02', (T, "    traj_frac_coords = trajectory.positions.reshape(-1, 3)\n", "    traj_frac_coords = trajectory.positions.reshape(-1, 3)\n    traj_frac_coords = np.where(traj_frac_coords > 0.999, traj_frac_coords - 0.002, traj_frac_coords)\n"))
+M('c02_min_dist_nonperiodic', 'C02', (T, "    pdist = lattice.get_all_distances(site_coords, site_coords)\n    min_dist", "    from scipy.spatial.distance import cdist\n    pdist = cdist(sites.cart_coords, sites.cart_coords)\n    min_dist"))
